@@ -135,6 +135,13 @@ def run(chk):
     y3 = np.arange(nrows) % 3                       # a three-class labelling: sensor_coef_ is then a matrix (n_features x 3)
 
     def sspoc_at(stage):
+        if stage in (4, 5):
+            # a model that holds a stored threshold: fitted without n_sensors (4), then updated by threshold (5)
+            m = SSPOC()
+            impl.quiet(m.fit, X, y, quiet=True)
+            if stage == 5:
+                impl.quiet(m.update_sensors, threshold=float(np.sort(np.abs(m.sensor_coef_))[-3]), xy=(X, y), quiet=True)
+            return m
         m = SSPOC(n_sensors=3)
         if stage == 3:
             impl.quiet(m.fit, X, y3, quiet=True)
@@ -144,13 +151,17 @@ def run(chk):
         if stage >= 2:
             impl.quiet(m.update_sensors, n_sensors=5, xy=(X, y), quiet=True)
         return m
-    for stage in (0, 1, 2, 3):
+    for stage in (0, 1, 2, 3, 4, 5):
         fitted = "true" if stage else "false"
         for v in values(nf):
             for thr in (None, 0.5):
-                rows.append((f"SSPOC[{stage}].update_sensors(n_sensors={v}, threshold={thr})",
-                             f"g_sspoc_update_sensors {fitted} {nf} {coq_pv(v)} {'true' if thr is not None else 'false'}",
-                             lambda v=v, stage=stage, thr=thr: sspoc_at(stage).update_sensors(n_sensors=pyv(v), threshold=thr, quiet=True), True))
+                for with_xy in ((False, True) if stage in (1, 2, 4, 5) else (False,)):
+                    rows.append((f"SSPOC[{stage}].update_sensors(n_sensors={v}, threshold={thr}{', xy' if with_xy else ''})",
+                                 f"g_sspoc_update_sensors {fitted} {nf} {coq_pv(v)} {'true' if thr is not None else 'false'}",
+                                 lambda v=v, stage=stage, thr=thr, with_xy=with_xy: sspoc_at(stage).update_sensors(
+                                     n_sensors=pyv(v), threshold=thr, xy=(X, y) if with_xy else None, quiet=True), True))
+        if stage in (4, 5):
+            continue
         rows.append((f"SSPOC[{stage}].selected_sensors", f"g_sspoc_getter {fitted}", lambda stage=stage: sspoc_at(stage).selected_sensors, stage == 0))
         rows.append((f"SSPOC[{stage}].predict", f"g_sspoc_getter {fitted}", lambda stage=stage: sspoc_at(stage).predict(probe[:, :3] if stage in (1, 3) else probe[:, :5]), stage == 0))
         if stage:
@@ -288,10 +299,14 @@ def run(chk):
         Xn = X[:, :3]
         rejected_noop(f"SSPOR.update_n_basis_modes-late(k={nrows}, x narrower than n_sensors)@{stage}", lambda stage=stage: sspor_at(stage),
                       lambda m: (setattr(m.basis, "n_basis_modes", 2), m.update_n_basis_modes(nrows, x=Xn, quiet=True)), obs_sspor)
-        for v in values(nf):
-            for thr in (None, 0.5):
-                rejected_noop(f"SSPOC.update_sensors({v}, thr={thr})@{stage}", lambda stage=stage: sspoc_at(stage),
-                              lambda m, v=v, thr=thr: m.update_sensors(n_sensors=pyv(v), threshold=thr, quiet=True), lambda m: observe_sspoc(m, probe))
+        for st2 in (stage, stage + 3):
+            for v in values(nf):
+                for thr in (None, 0.5):
+                    for with_xy in (False, True):
+                        rejected_noop(f"SSPOC.update_sensors({v}, thr={thr}{', xy' if with_xy else ''})@{st2}", lambda st2=st2: sspoc_at(st2),
+                                      lambda m, v=v, thr=thr, with_xy=with_xy: m.update_sensors(n_sensors=pyv(v), threshold=thr,
+                                                                                                xy=(X, y) if with_xy else None, quiet=True),
+                                      lambda m: observe_sspoc(m, probe))
         for v in values(nrows):
             rejected_noop(f"SSPOC.update_n_basis_modes({v})@{stage}", lambda stage=stage: sspoc_at(stage),
                           lambda m, v=v: m.update_n_basis_modes(pyv(v), (X[:4], y[:4]), quiet=True), lambda m: observe_sspoc(m, probe))
